@@ -36,11 +36,13 @@ def run(ctx, vine=False, rep=False, pid='C05'):
             skipped.append(name); continue
         live[name] = [exe]
         cases = []
-        for k in range(n):
-            p = 2 if not caps['zp'] else ctx.rng.choice([2, 3, 3, 5, 7])
+        chain_zp_rm = caps['flav'] == 2 and caps['zp'] and caps['rm']       # removals followed by insertions on Z_p chains: rescaled columns (three times the cases, odd primes)
+        ru_plain_rm = vine and caps['flav'] == 1 and caps['rm'] and not caps['mapc'] and not caps['rows']     # own identifiers + removal + re-insertion + swaps: five times the cases
+        for k in range(3 * n if chain_zp_rm else 5 * n if ru_plain_rm else n):
+            p = 2 if not caps['zp'] else ctx.rng.choice([3, 3, 5, 7] if chain_zp_rm else [2, 3, 3, 5, 7])
             # chain flavour: representative cycles assume identifiers = positions (known finding of C08), so those streams keep default identifiers and no swaps
             chain_rep = rep and caps['flav'] == 2
-            cases.append(pmgen.gen_case(ctx.rng, caps, p=p, want_vine=vine and not chain_rep, want_rep=rep, custom_ids=((k % 5 == 4) or bool(caps.get('barcode_on_demand') and k % 2 == 1)) and not chain_rep, plain_ids=chain_rep))
+            cases.append(pmgen.gen_case(ctx.rng, caps, p=p, want_vine=vine and not chain_rep, want_rep=rep, custom_ids=((k % 5 == 4) or bool(caps.get('barcode_on_demand') and k % 2 == 1) or bool(caps['flav'] == 1 and caps['rm'] and not caps['mapc'] and not caps['rows'] and k % 2 == 1)) and not chain_rep, plain_ids=chain_rep))
         nontriv = lambda c: sum(1 for l in c if l.startswith('ins')) >= 6 and any(':' in l and 'inf' not in l.split()[-1] for l in pmgen.simulate(c) if l and l.startswith('bars'))
         vlib.correspondence(ctx, name, [exe], drv, cases, nontrivial=nontriv, keep_prefix=2, oracle=pmgen.oracle, valid=pmgen.valid)
     # release builds (-O2 -DNDEBUG): the checks inside GUDHI_CHECK / assert are compiled out, nothing the property relies on may live there
